@@ -8,45 +8,6 @@ open Ndn.C05
 
 /-! ### folding FIB calls -/
 
-theorem aset_of_not_mem {a : Hops} {k : Nat} (h : k ∉ a.map (·.1)) (v : Nat) : aset a k v = a ++ [(k, v)] := by
-  induction a with
-  | nil => rfl
-  | cons p t ih =>
-    obtain ⟨k', v'⟩ := p
-    simp only [List.map_cons, List.mem_cons, not_or] at h
-    have : ¬ k' = k := fun e => h.1 e.symm
-    simp [aset, this, ih h.2]
-
-theorem foldl_aset_append (l : Hops) : ∀ (acc : Hops), KeysNodup (acc ++ l) →
-    l.foldl (fun a h => aset a h.1 h.2) acc = acc ++ l := by
-  induction l with
-  | nil => intro acc _; simp
-  | cons p t ih =>
-    intro acc hn
-    obtain ⟨k, v⟩ := p
-    simp only [List.foldl_cons]
-    have hk : k ∉ acc.map (·.1) := by
-      unfold KeysNodup at hn
-      simp only [List.map_append, List.map_cons] at hn
-      have := (List.nodup_append.mp hn).2.2
-      intro hm
-      exact this k hm k (by simp) rfl
-    rw [aset_of_not_mem hk]
-    have := ih (acc ++ [(k, v)]) (by simpa [List.append_assoc] using hn)
-    simpa [List.append_assoc] using this
-
-theorem foldl_ins_nhAt (nm : Name) (l : Hops) : ∀ (fib : C05.Spec) (q : Name),
-    ((l.map fun h => C05.Op.ins nm h.1 h.2).foldl C05.Spec.apply fib).nhAt q =
-      if nm = q then l.foldl (fun a h => aset a h.1 h.2) (fib.nhAt nm) else fib.nhAt q := by
-  induction l with
-  | nil => intro fib q; by_cases h : nm = q <;> simp [h]
-  | cons p t ih =>
-    intro fib q
-    simp only [List.map_cons, List.foldl_cons]
-    rw [ih]
-    simp only [C05.Spec.nhAt_apply, nhStep, if_true]
-    by_cases h : nm = q <;> simp [h]
-
 /-- a node that has a name (it was registered at some time) -/
 def Rib.named (r : Rib) (p : Name) : Bool :=
   match afind r.nodes p with
